@@ -219,6 +219,14 @@ def check_attr(A, rep):
                             assigned.setdefault(t.attr, fn)
                     if isinstance(n, ast.Call) and isinstance(n.func, ast.Name) and n.func.id in ("setattr", "delattr") and len(n.args) >= 2 and isinstance(n.args[0], ast.Name) and n.args[0].id == selfname and isinstance(n.args[1], ast.Constant):
                         assigned.setdefault(n.args[1].value, fn)
+        # properties with a setter are assigned through attribute syntax too
+        from ..model import Prop as _Prop
+        for k in c.mro:
+            if isinstance(k, ExtClass) or k.module.name == ABC_MOD:
+                continue
+            for nm, v in k.cdict.items():
+                if isinstance(v, _Prop) and v.fset is not None:
+                    assigned.setdefault(nm, v.fset)
         rep.context(f"{c.name} protected keys", True)
         for name, fn in sorted(assigned.items()):
             if name in pk or name.startswith("__"):
